@@ -49,7 +49,7 @@ func IsIdent(test string) bool {
 	}
 
 	for i := 1; i < len(test); i++ {
-		if !IsDigit(rune(test[i])) || !IsLetter(rune(test[i])) {
+		if !IsDigit(rune(test[i])) && !IsLetter(rune(test[i])) {
 			return false
 		}
 	}
